@@ -227,3 +227,31 @@ Print Assumptions C05_svt_cmd_tag_tagnum.
 Theorem C05_valid_tag_abstract : forall fl : flags, validate_release_tag (f_tag fl) = true -> exists ft : option (option ptag), f_tag fl = option_map ltext ft.
 Proof. exact valid_tag_abstract. Qed.
 Print Assumptions C05_valid_tag_abstract.
+
+(* ---- Proofs.CalverTagE2E ---- *)
+From Coq Require Import List Bool NArith ZArith Arith.
+From BV Require Import Lib.PyStr Lib.Decimal Lib.Calendar Model.V2 Model.Pep440 Model.Cli Model.Lexid Proofs.DottedFacts Proofs.CalverTagE2E.
+Import ListNotations.
+Theorem C05_cvt_parse_eq : forall (today : Z) (y m : N) (bid : list N) (t : option PE.ltag), (1000 <= y <= 9999)%N -> (1 <= m <= 12)%N -> all_digits bid = true -> bid <> [] -> parse_version_info today (cvt y m bid t) P = POk (cvt_vinfo (Z.of_N y) (Z.of_N m) bid t).
+Proof. exact cvt_parse_eq. Qed.
+Print Assumptions C05_cvt_parse_eq.
+
+Theorem C05_cvt_format_gen : forall (v : vinfo) (y m : Z) (t : option PE.ltag), v_year_y v = Some y -> v_month v = Some m -> v_tag v = ttext t -> all_digits (v_bid v) = true -> format_version v P = Some (cvt (Z.to_N y) (Z.to_N m) (v_bid v) t).
+Proof. exact cvt_format_gen. Qed.
+Print Assumptions C05_cvt_format_gen.
+
+Theorem C05_group_shown_iff_tagged : forall (y m : N) (bid : list N) (t : option PE.ltag), cvt y m bid t = CV.cv y m bid <-> t = None.
+Proof. exact group_shown_iff_tagged. Qed.
+Print Assumptions C05_group_shown_iff_tagged.
+
+Theorem C05_cvt_incr : forall (today date : Z) (fl : flags) (ft : option (option ST.ptag)) (y m : N) (bid b' : list N) (t : option PE.ltag), (1000 <= y <= 9999)%N -> (1 <= m <= 12)%N -> all_digits bid = true -> bid <> [] -> tag_flags fl ft -> bump_bid bid = Some b' -> incr today (cvt y m bid t) P fl date = INew (cvt_next y m b' (next_tag ft t) date).
+Proof. exact cvt_incr. Qed.
+Print Assumptions C05_cvt_incr.
+
+Theorem C05_cvt_incr_overflow : forall (today date : Z) (fl : flags) (ft : option (option ST.ptag)) (y m : N) (bid : list N) (t : option PE.ltag), (1000 <= y <= 9999)%N -> (1 <= m <= 12)%N -> all_digits bid = true -> bid <> [] -> tag_flags fl ft -> bump_bid bid = None -> incr today (cvt y m bid t) P fl date = ICrash.
+Proof. exact cvt_incr_overflow. Qed.
+Print Assumptions C05_cvt_incr_overflow.
+
+Theorem C05_tag_flags_complete : forall fl : flags, f_major fl = false -> f_minor fl = false -> f_patch fl = false -> f_tag_num fl = false -> f_pin_date fl = false -> validate_release_tag (f_tag fl) = true -> exists ft : option (option ST.ptag), tag_flags fl ft.
+Proof. exact tag_flags_complete. Qed.
+Print Assumptions C05_tag_flags_complete.
